@@ -93,7 +93,7 @@ def r1_assert_eq(text, fn, log):
 
 
 # ------------------------------------------------------------------ R2: panic sites
-def r2_panics(text, fn, site_exprs, log):
+def r2_panics(text, fn, site_exprs, log, inv=None):
     """site_exprs: function ordinal(1-based) -> spec expr string passed as Ghost(valid).
     Returns (text, nsites)."""
     m = mask(text)
@@ -101,7 +101,10 @@ def r2_panics(text, fn, site_exprs, log):
     edits = []
     for k, (a, b) in enumerate(sites, 1):
         e = site_exprs(k)
-        new = '{ let ghost valid_ = (%s); vpanic(Ghost(valid_)) /*panic-site %d*/ }' % (e, k)
+        if inv:
+            new = '{ let ghost valid_ = (%s); let ghost inv_ = (%s); vpanic_inv(Ghost(valid_), Ghost(inv_)) /*panic-site %d*/ }' % (e, inv, k)
+        else:
+            new = '{ let ghost valid_ = (%s); vpanic(Ghost(valid_)) /*panic-site %d*/ }' % (e, k)
         edits.append((a, b, new))
         log.add('R2', fn, text[a:b], new)
     return apply_edits(text, edits), len(sites)
